@@ -27,8 +27,9 @@ func init() {
 			"(R10) backslash escaping is symmetric: escapeString prints a token bare only if it holds no separator, quote or backslash, and otherwise doubles backslashes, then escapes quotes, between two quotes with %s (no other verb or replacement); in each of the three scanners (extractSnippets, prepToken, endOfFirstToken) the backslash case changes what the next iteration sees - a flag consulted before any quote test, or an advance of the loop's own index. " +
 			"(R11) sibling agreement (A14): the paired functions consist of the same operations - calls with their constant arguments, comparisons (canonical under negation and operand order), field reads/writes, channel operations, returns, each with the number of conditions it depends on - once the instance-specific names are mapped onto each other; logging is ignored, named differences are listed in the table: andCond.check ~ orCond.check. " +
 			"(R12) every character the tokenizer compares its input with is in escapeString's quoting set, and the tokenizer applies no character-class predicate (unicode.IsSpace ...) to the input; (R13) the list constructor stores the elements of a textual list as split (no trimming, case mapping or element rewrite). " +
-			"NOT decided (named in the statement, out of reach for a sound static rule): print->parse->print identity, same-records equivalence, conditions ending in a parenthesised group.",
-		Rules: []ruleFn{c11R1, c11R2, c11R3, c11R4, c11R5, c11R6, c11R7, c11R8, c11R10, func(c *Ctx, r *Report) { siblingRule(c, r, "C11-R11", sibQuery) }, c11R12, c11R13,
+			"(R14) in parseAndOr every loop iteration leaves the operand-outstanding flag cleared exactly when it added an operand (plain condition or parenthesised group) and set when it consumed and/or/not - so a condition list may end in a group. " +
+			"NOT decided (named in the statement, out of reach for a sound static rule): print->parse->print identity, same-records equivalence.",
+		Rules: []ruleFn{c11R1, c11R2, c11R3, c11R4, c11R5, c11R6, c11R7, c11R8, c11R10, func(c *Ctx, r *Report) { siblingRule(c, r, "C11-R11", sibQuery) }, c11R12, c11R13, c11R14,
 			func(c *Ctx, r *Report) { narrowingRule(c, r, "C11-R9", []string{"database/query"}, map[string]string{"database/query.newIntCondition / uint -> int64": "operand handed in through the Go API, not from query text; values above MaxInt64 are outside what the text form can express"}) }},
 	})
 }
